@@ -19,7 +19,7 @@ func (c11) ID() string       { return "C11" }
 func (c11) NewCase() any     { return &CheckCase{} }
 func (c11) Cases(c *Ctx) int { return c.Pick(2000, 40000) }
 
-var c11Modes = []string{"pass", "errorf", "skip", "errorf+skip", "cleanup-errorf", "cleanup-errorf+skip", "fatalf", "cleanup", "ctx", "go-errorf", "go-errorf+skip", "log",
+var c11Modes = []string{"pass", "errorf", "skip", "errorf+skip", "cleanup-errorf", "cleanup-errorf+skip", "fatalf", "cleanup", "cleanup", "ctx", "ctx", "ctx+cleanup-ctx", "go-errorf", "go-errorf+skip", "log",
 	"cleanup-errorf+cleanup-skip", "cleanup+cleanup-skip", "cleanup-skip"}
 
 func c11Block(mode string, site int) []*Stmt {
@@ -42,6 +42,8 @@ func c11Block(mode string, site int) []*Stmt {
 		return []*Stmt{{Op: "cleanup", Body: []*Stmt{{Op: "ctx"}}}}
 	case "ctx":
 		return []*Stmt{{Op: "ctx"}}
+	case "ctx+cleanup-ctx":
+		return []*Stmt{{Op: "ctx"}, {Op: "cleanup", Body: []*Stmt{{Op: "ctx"}}}, {Op: "ctx"}}
 	case "go-errorf":
 		return []*Stmt{{Op: "go", Body: []*Stmt{errorf}}}
 	case "go-errorf+skip":
@@ -105,7 +107,16 @@ func (c11) Run(c *Ctx, csAny any) Outcome {
 	out := Outcome{}
 	dir := EnterCaseDir()
 	defer LeaveCaseDir(dir)
-	r := runProg(cs.Cfg, cs.Prog)
+	// the context / cleanup brackets of every invocation (C10's validator): on the reused T a context or a cleanup
+	// of one test case that shows up in another is state carried over
+	var bracket *Violation
+	r := runProgHook(cs.Cfg, cs.Prog, func(inv *Invocation) {
+		if bracket == nil {
+			if key, msg := validateBrackets(inv); key != "" {
+				bracket = violf("C11:carried-over:"+key, "invocation %d (ended %s; earlier cases: %s): %s; trace: %s", inv.Idx, inv.End, "", msg, bracketTrace(inv))
+			}
+		}
+	})
 
 	// which case does the library blame? ("[rapid] test #k failed" is logged with -rapid.v)
 	blamed := -1
@@ -169,6 +180,10 @@ func (c11) Run(c *Ctx, csAny any) Outcome {
 	}
 	if v := oracleReportIsReal(r); v != nil {
 		out.Viol = prefixKey("C11", v)
+		return out
+	}
+	if bracket != nil {
+		out.Viol = bracket
 		return out
 	}
 	// the same run without -rapid.v must execute exactly the same test cases
